@@ -608,7 +608,7 @@ def threshold(ctx):
     conj = sorted(unparse(v) for v in t[0].test.values) if isinstance(t[0].test, ast.BoolOp) and isinstance(t[0].test.op, ast.And) else [unparse(t[0].test)]
     from ..core import same_items
     ctx.check(same_items(conj, ["not a.dtype.hasobject", "self._max_nbytes is not None", "a.nbytes > self._max_nbytes"]), t[0], "memmap iff not hasobject and a threshold is set and nbytes > threshold", "memmapping is chosen under %s" % conj)
-    els = [r for r in t[0].orelse for r in walk_local(r) if isinstance(r, ast.Return)]
+    els = [r for r in nodes_of_type(f, ast.Return) if any(c_[0] is t[0] and c_[-1] is False for c_ in g.conditions_at(g.nodes_of(r)))]
     ctx.check(bool(els) and "dumps(a, protocol=HIGHEST_PROTOCOL)" in unparse(els[0].value), els[0] if els else t[0], "otherwise the array is pickled by value")
     d = [c for c in calls_in(t[0]) if call_name(c) == "dump"]
     ctx.check(bool(d) and [dotted(x) for x in d[0].args] == ["a", "filename"], d[0] if d else t[0], "the array itself is dumped to the temporary file")
